@@ -646,6 +646,78 @@ func (e *Engine) mk(vd *VD, addr atree.Address, limit uint32, depth int) (atree.
 		e.Stats.label("nested_container_created")
 		e.Stats.label("bulk_built_array")
 		return a, n, nil
+	case "bmap":
+		// a map that is built at the TEMPORARY address and then transferred into the owner's account with the bulk
+		// constructor, keeping the seed and order of the temporary original (how Cadence moves a dictionary into storage):
+		// the seed of a temporary map reaches the registers this way
+		if e.excludeF4() {
+			c := *vd
+			c.K = "arr"
+			c.E = nil
+			e.Stats.Add("excluded_known_F4", 1)
+			return e.mk(&c, addr, limit, depth)
+		}
+		ti := TI{N: e.typeNum(vd.N, 8)}
+		src, err := atree.NewMap(e.St, atree.AddressUndefined, atree.NewDefaultDigesterBuilder(), ti)
+		if err != nil {
+			return nil, nil, e.viol("NewMap at the temporary address failed: %v", err)
+		}
+		n := &Node{ID: e.nextNode, Addr: addr, IsMap: true, TI: ti, Ents: map[string]*Ent{}, Ins: map[string]int{}}
+		e.nextNode++
+		type kvm struct {
+			k, v MV
+		}
+		want := map[string]kvm{}
+		for i := 0; i < vd.L; i++ {
+			km := e.key(vd.N*7 + uint64(i))
+			ck := canonKey(km)
+			if _, dup := want[ck]; dup {
+				continue
+			}
+			vm := U64(vd.N + uint64(i))
+			if old, err := src.Set(e.CB.Compare, e.CB.HashInput, keyValue(km), vm); err != nil || old != nil {
+				return nil, nil, e.viol("Set on a temporary map failed: %v (previous %v)", err, old)
+			}
+			want[ck] = kvm{km, vm}
+		}
+		it, err := src.ReadOnlyIterator()
+		if err != nil {
+			return nil, nil, e.viol("iterator of a temporary map failed: %v", err)
+		}
+		m, err := atree.NewMapFromBatchData(e.St, addr, atree.NewDefaultDigesterBuilder(), ti, e.CB.Compare, e.CB.HashInput, src.Seed(),
+			func() (atree.Value, atree.Value, error) {
+				k, v, err := it.Next()
+				if err != nil || k == nil {
+					return nil, nil, err
+				}
+				ck, err := canonOfValue(k)
+				if err != nil {
+					return nil, nil, err
+				}
+				w, ok := want[ck]
+				if !ok {
+					return nil, nil, fmt.Errorf("temporary map yields unknown key %s", ck)
+				}
+				n.Ents[ck] = &Ent{K: w.k, V: w.v}
+				n.stamp++
+				n.Ins[ck] = n.stamp
+				// fresh values for the copy (keys that are too large for inline storage are copied, too)
+				return keyValue(w.k), v, nil
+			})
+		if err != nil {
+			return nil, nil, e.viol("NewMapFromBatchData from a temporary map of %d entries failed: %v", len(want), err)
+		}
+		if m.Seed() != src.Seed() {
+			return nil, nil, e.viol("bulk-built map has seed %d, its source %d", m.Seed(), src.Seed())
+		}
+		// dispose of the temporary original
+		if err := e.dispose(atree.SlabIDStorable(src.SlabID())); err != nil {
+			return nil, nil, err
+		}
+		n.HM, n.VID, n.HandleStep = m, m.ValueID(), e.step
+		e.Stats.label("nested_container_created")
+		e.Stats.label("map_transferred_from_temp_address")
+		return m, n, nil
 	case "map", "cmap":
 		// (a composite map whose field names collide under the colliding hash-input provider is not stored in the shared
 		// compact form: it carries its own extra data like a plain map and counts as one)
@@ -756,7 +828,7 @@ func (e *Engine) elemVD(tpl *VD, i uint64, depth int) *VD {
 	}
 	c := *tpl
 	c.N = tpl.N + i*1000003
-	if depth >= 3 && (c.K == "arr" || c.K == "map" || c.K == "cmap" || c.K == "barr") {
+	if depth >= 3 && (c.K == "arr" || c.K == "map" || c.K == "cmap" || c.K == "barr" || c.K == "bmap") {
 		return &VD{K: "u", N: c.N}
 	}
 	return &c
